@@ -150,9 +150,39 @@ _SCHED: Scheduler | None = None
 _EXPECT: dict = {}
 
 
+_PROC = None
+
+
+def _lazy_child(_):
+    for op in OPS:
+        call(OPS[op], Shared())
+    return sorted(m for m in sys.modules if m == "xsdata" or m.startswith("xsdata."))
+
+
+def _lazy_modules():
+    """Modules of the tree under test that are loaded once every operation has run (in a forked child: this process stays pristine)."""
+    import multiprocessing as mp
+    with mp.get_context("fork").Pool(1) as pool:
+        return pool.map(_lazy_child, [0])[0]
+
+
+def proc():
+    """Process-wide state of the tree under test (module globals, class attributes, module-level instances, lru caches):
+    found by a walk, part of the profile's roots, restored before every execution."""
+    global _PROC
+    if _PROC is None:
+        import dataclasses
+        from ..procstate import ProcessState
+        models = [c for c in vars(M).values() if isinstance(c, type) and dataclasses.is_dataclass(c)] + [FWD_OUTER, FWD_INNER]
+        _PROC = ProcessState(os.environ.get("VERIF_REPO", "/repo"), model_classes=models, modules=_lazy_modules())
+    return _PROC
+
+
 def _make_roots():
+    proc().reset()
     sh = Shared()
-    return {"canon": {"ctx": sh.ctx, "parser": sh.parser, "serializer": sh.serializer, "decoder": sh.decoder, "fwd_serializer": sh.fwd_serializer}, "arg": sh}
+    canon = {"ctx": sh.ctx, "parser": sh.parser, "serializer": sh.serializer, "decoder": sh.decoder, "fwd_serializer": sh.fwd_serializer}
+    return {"canon": canon, "arg": sh, "cheap": proc().fingerprint}
 
 
 def _profile_one(op: str):
@@ -190,6 +220,7 @@ def scheduler() -> Scheduler:
     global _SCHED
     if _SCHED is None:
         from ..engine import pmap
+        proc()
         # run every operation once alone first: lazy imports inside the library change
         # len(sys.modules), which the context uses as its staleness test
         for op in OPS:
@@ -197,6 +228,10 @@ def scheduler() -> Scheduler:
         for nm in _DUMMIES:
             sys.modules.pop(nm, None)
         _DUMMIES.clear()
+        late = proc().new_library_modules()
+        if late:
+            raise HarnessError(f"modules of the tree under test imported only when first used (their state has no recorded start): {late}")
+        PROFILE["process_state"] = proc().summary()
         repo = os.path.realpath(os.environ.get("VERIF_REPO", "/repo"))
         attrs: set = set()
         write_lines: dict = {}
@@ -212,7 +247,9 @@ def scheduler() -> Scheduler:
             for k, l in prof["write_funcs"].items():
                 write_funcs.setdefault(k, set()).update(l)
         PROFILE.update(attrs=sorted(attrs), write_lines={os.path.relpath(f, repo): sorted(l) for f, l in write_lines.items()})
-        scan = SharedStateScan(repo, only_attrs=attrs)
+        gl = {n.rsplit(".", 1)[1] for n in proc().containers} & attrs
+        PROFILE["process_wide_names_mutated"] = sorted(gl)
+        scan = SharedStateScan(repo, only_attrs=attrs, global_names=gl)
         # a dynamic write whose line does not name one of those attributes syntactically is a write through
         # an alias (e.g. register_namespace(ns_map, ...)): every line of that function becomes a point
         alias: dict = {}
@@ -231,6 +268,7 @@ def scheduler() -> Scheduler:
 def expected(op: str):
     """Result of the operation when run alone on fresh objects."""
     if op not in _EXPECT:
+        proc().reset()
         r = call(OPS[op], Shared())
         _EXPECT[op] = r
     return _EXPECT[op]
@@ -248,6 +286,7 @@ def res_equal(a, b) -> bool:
 def h_sched(ch: Chooser, name: str):
     cfg = HARNESS_SETS.get(name) or HARNESS_SETS_3[name]
     before = len(_DUMMIES)
+    proc().reset()
     shared = Shared()
     for w in cfg["warm"]:
         r = call(OPS[w], shared)
@@ -328,12 +367,14 @@ def run(tier: str, seed: int) -> int:
         rule=("every schedule of the listed thread harnesses with at most the stated number of preemptions; a scheduling point is every executed line of the tree "
               "under test that reads or writes a shared mutable attribute (computed by AST scan of the current tree). Non-trivial = schedule with >= 1 context switch."),
         assumptions=["steps that touch only thread-local state commute with every step of other threads (partial-order argument)",
+                     "process-wide state (module globals, class attributes, module-level instances; listed under process_wide_state) is restored to its "
+                     "contents after import before every execution and every lru_cache is emptied: the threads start in a process that has imported the library and used nothing",
                      "line granularity: a preemption inside one source line (between bytecodes) is not explored in this tier",
                      "CPython GIL semantics; C-level lru_cache is internally consistent"],
         bound={"threads": "2 (thorough also 3)", "preemptions": bound, "harnesses": [r[1]["name"] for r in roots]},
         extra={"states": max(1, stats.counters.get("scheduling_points", 0)), "transitions": max(1, stats.counters.get("scheduling_points", 0)),
                "traces_validated_against_impl": stats.executions,
                "shared_state": PROFILE.get("attrs"), "dynamic_write_lines": PROFILE.get("write_lines"), "alias_write_functions": PROFILE.get("alias_write_functions"),
-               "scheduling_point_lines": npts,
+               "scheduling_point_lines": npts, "process_wide_state": PROFILE.get("process_state"), "process_wide_names_mutated": PROFILE.get("process_wide_names_mutated"),
                "explanation": "states/transitions = scheduling decisions taken over all explored schedules (stateless search: every trace is an implementation trace)"},
     )
